@@ -123,6 +123,13 @@ def valid_frame(draw, pic, kinds=None):
             payload = draw(st.sampled_from(["2.0", "1.4", "", "desc", "...", "1.3"])) if sub not in (17, 18) else payload
         pic.nodes.setdefault(nid, {})
         return (nid, 255, T.PRESENTATION, ack, sub, payload)
+    if kind == "sysodd":
+        # a presentation on the system child that is NOT a node presentation (sensor type on child 255):
+        # accepted by the serial API; its payload ends up where a version string is expected
+        nid = _pick_node(draw, pic)
+        sub = draw(st.integers(0, T.MAX_SUB[version][T.PRESENTATION]).filter(lambda x: x not in (17, 18)))
+        pic.nodes.setdefault(nid, {})
+        return (nid, 255, T.PRESENTATION, ack, sub, draw(st.sampled_from(["2.0", "1.4", "", "desc", "...", "1.3", "2.2.0"])))
     if kind == "child":
         nid = _pick_node(draw, pic)
         cid = draw(st.sampled_from(CHILD_POOL))
@@ -259,6 +266,8 @@ wild_payload = st.one_of(
     st.integers(-10 ** 20, 10 ** 20).map(str),
 )
 
+HUGE_NUMBERS = ["9" * 4301, "1.4." + "9" * 4301, "2." + "0" * 4400 + "1", "-" + "1" * 4400, "1" * 4300, "0" * 5000, "1e" + "9" * 4400, "9" * 4301 + ".5", "7" * 20000]
+
 GARBAGE = ["", ";", ";;;;;", "1;2;3", "1;2;3;4;5", "1;2;3;4;5;6;7", "a;b;c;d;e;f", "1;255;3;0;x;", "hello", "1;1;1;0;", "\x00", "1;1;1;0;2;1;", "1.0;1;1;0;2;1", "１;1;1;0;2"]
 
 
@@ -321,6 +330,13 @@ def controller_set(draw, pic, wire_carriable=True, wild=False):
     op = {"op": "set", "n": nid, "c": cid, "vt": vt, "value": value}
     if draw(st.integers(0, 5)) == 0:
         op["ack"] = draw(st.sampled_from([0, 1, 1, 2]))
+    if draw(st.integers(0, 9)) == 0:
+        # the msg_type keyword: ask the node to report (req, empty value) - or, rarely, a req with a value
+        # (refused) / an explicit set
+        op["msg_type"] = draw(st.sampled_from([2, 2, 2, 1]))
+        op["mt_kind"] = draw(st.sampled_from(["int", "enum"]))
+        if op["msg_type"] == 2 and draw(st.integers(0, 4)) > 0:
+            op["value"] = ""
     if wild:
         kind = draw(st.sampled_from(["int", "int", "str", "enum"]))
         if kind == "enum" and vt > top:
@@ -351,6 +367,8 @@ def fw_update(draw, pic, max_len=200):
     op = {"op": "fw", "nids": nids, "type": ftype, "ver": fver, "image": image}
     if image is not None and draw(st.integers(0, 3)) == 0:
         op["via_path"] = True  # through update_fw(fw_path=<Intel-HEX file>)
+    if draw(st.integers(0, 4)) == 0:
+        op["tv_kind"] = draw(st.sampled_from(["str", "str", "float"]))  # type / version given as "1" or 1.0
     return op
 
 
@@ -382,11 +400,12 @@ def histories(draw, versions=T.VERSIONS, max_ops=30, invalid=True, controller=Tr
             if wake is not None and draw(st.booleans()):
                 ops.append({"op": "line", "text": frame((nid, 255, T.INTERNAL, 0, wake, "5"))})
     weights = dict(valid=62, near=10 if invalid else 0, raw=6 if invalid else 0, set=12 if controller else 0,
-                   fw=4 if ota else 0, metric=2, cb_raise=2 if cb_raise else 0, clock=2, wild=0, save=0, desire=3 if controller else 0, race=0, confirm=2 if controller else 0, otaflow=2 if ota else 0, burst=3, restart=0)
+                   fw=4 if ota else 0, metric=2, cb_raise=2 if cb_raise else 0, clock=2, wild=0, save=0, desire=3 if controller else 0, race=0, confirm=2 if controller else 0, otaflow=2 if ota else 0, burst=3, restart=0, neighbour=2)
     weights.update(op_weights or {})
     if weights.get("save") and "restart" not in (op_weights or {}):
         weights["restart"] = 2  # histories on a gateway with a persistence file also span clean restarts
     table = [k for k, w in weights.items() for _ in range(w)]
+    pic2 = None
     for _ in range(n_ops):
         roll = draw(st.sampled_from(table))
         if roll == "valid":
@@ -399,8 +418,14 @@ def histories(draw, versions=T.VERSIONS, max_ops=30, invalid=True, controller=Tr
                 text = "1;2;3"
             ops.append({"op": "line", "text": text})
         elif roll == "wild":
-            fields = list(draw(valid_frame(pic, frame_kinds)))
-            fields[5] = draw(wild_payload)
+            if draw(st.integers(0, 3)) == 0:
+                # numbers longer than Python's int <-> str conversion limit (4300 digits), on frames whose payload
+                # is parsed as a number or a version somewhere
+                fields = list(draw(valid_frame(pic, ["sysodd", "sysodd", "node", "battery", "sketch", "set", "child", "misc", "wake", "config"])))
+                fields[5] = draw(st.sampled_from(HUGE_NUMBERS))
+            else:
+                fields = list(draw(valid_frame(pic, frame_kinds)))
+                fields[5] = draw(wild_payload)
             ops.append({"op": "line", "text": frame(tuple(fields))})
         elif roll == "set":
             ops.append(draw(controller_set(pic, wire_carriable, wild_vt)))
@@ -482,6 +507,11 @@ def histories(draw, versions=T.VERSIONS, max_ops=30, invalid=True, controller=Tr
             for _ in range(draw(st.integers(0 if frames else 2, 3))):
                 frames.append(draw(valid_frame(pic, kinds)))
             ops.append({"op": "burst", "texts": [frame(f) for f in frames]})
+        elif roll == "neighbour":
+            # another gateway object of the same process handles a line of its own network
+            if pic2 is None:
+                pic2 = Picture(version)
+            ops.append({"op": "nline", "text": frame(draw(valid_frame(pic2)))})
         elif roll == "save":
             ops.append({"op": "save"})
         elif roll == "restart":
